@@ -11,3 +11,49 @@ Definition real_class (c : tcase) : nat :=
   match c_out c with ROk _ => 0 | RDiag _ _ _ => 1 | RCrash => 2 end.
 Definition class_mismatches (e : env) (l : list tcase) : list nat :=
   bad_indices (fun c => Nat.eqb (outcome_class e c) (real_class c)) l.
+
+(* ---------------------------------------------------------------------------------------------------------------
+   round 4: Tokenizer.merge_vanilla_macro and the loops around it (Model/TokMacro.v) against the real method.
+   One case = one observed call (traced while a generated program compiled) or one direct call on a generated token
+   list:  the tokens handed over, the position, what clean_up_paren_token / len(repr(..)) returned for the tokens of
+   this list (tables keyed by the token's string), and the list afterwards / the class of the exception. *)
+From JMCV Require Import Model.TokGuards Model.TokMacro.
+Open Scope Z_scope.
+
+Inductive mout :=
+| MOk (l : list rtok)      (* the list after the call (token by token) *)
+| MDiag                    (* a JMC diagnostic *)
+| MIndexError | MValueError | MOther.    (* an internal exception *)
+Record mcase := MC {
+  m_fn : nat;                                 (* 0 merge_vanilla_macro(tokens, kp) | 1 the loop of condition_to_ast | 2 the loop of _is_vanilla_func *)
+  m_toks : list rtok; m_kp : Z;
+  m_clean : list (string * option string);    (* token string -> cleaned-up text (None: a JMC diagnostic) *)
+  m_repr : list (string * Z);                 (* STRING token string -> len(repr(string)) *)
+  m_out : mout }.
+
+Definition tok_of (r : rtok) : token := mkTok (r_type r) (r_line r) (r_col r) (utf8 (r_str r)) (r_bt r).
+Definition clean_of (c : mcase) (t : token) : result str :=
+  match find (fun p => seqb (utf8 (fst p)) (t_str t)) (m_clean c) with
+  | Some (_, Some s) => Ok (utf8 s)
+  | Some (_, None) => Diag DBadString 0 0
+  | None => Ok (t_str t)
+  end.
+Definition repr_of (c : mcase) (s : str) : Z :=
+  match find (fun p => seqb (utf8 (fst p)) s) (m_repr c) with Some (_, n) => n | None => str_len s + 2 end.
+Definition macro_model (c : mcase) : result (list token) :=
+  let l := map tok_of (m_toks c) in
+  match m_fn c with
+  | 0%nat => merge_vm (clean_of c) (repr_of c) l (m_kp c)
+  | 1%nat => cond_merge (clean_of c) (repr_of c) l
+  | _ => vanilla_merge (clean_of c) (repr_of c) l
+  end.
+(* the merged token is compared by type, position and text (its quote is "" = not a backtick string) *)
+Definition macro_agrees (c : mcase) : bool :=
+  match macro_model c, m_out c with
+  | Ok l, MOk r => list_eqb tok_eqb l r
+  | Diag _ _ _, MDiag => true
+  | Crash IndexError, MIndexError => true
+  | Crash ValueError, MValueError => true
+  | _, _ => false
+  end.
+Definition mmismatches (l : list mcase) : list nat := bad_indices macro_agrees l.
